@@ -7,6 +7,7 @@ import (
 	"fmt"
 	"math"
 	"runtime"
+	"runtime/debug"
 	"sort"
 	"strconv"
 	"strings"
@@ -84,13 +85,15 @@ func strSet(xs []string) string {
 
 // runConcurrently starts n goroutines that wait on a common barrier and then call f(g); it returns
 // when all are done.  GOMAXPROCS is set to procs for the duration.  A panic in a goroutine is
-// re-raised on the caller (kit turns it into a violation).
+// re-raised on the caller together with the stack of the goroutine that panicked (kit turns it into
+// a violation; the caller's own stack says nothing about which library call failed).
 func runConcurrently(n, procs int, f func(g int)) {
 	old := runtime.GOMAXPROCS(procs)
 	defer runtime.GOMAXPROCS(old)
 	start := make(chan struct{})
 	var wg sync.WaitGroup
 	panics := make([]any, n)
+	stacks := make([]string, n)
 	for g := 0; g < n; g++ {
 		wg.Add(1)
 		go func(g int) {
@@ -98,6 +101,7 @@ func runConcurrently(n, procs int, f func(g int)) {
 			defer func() {
 				if p := recover(); p != nil {
 					panics[g] = p
+					stacks[g] = panicSite(string(debug.Stack()))
 				}
 			}()
 			<-start
@@ -108,9 +112,41 @@ func runConcurrently(n, procs int, f func(g int)) {
 	wg.Wait()
 	for g, p := range panics {
 		if p != nil {
-			panic(fmt.Sprintf("goroutine %d panicked: %v", g, p))
+			panic(fmt.Sprintf("goroutine %d panicked: %v [at %s]", g, p, stacks[g]))
 		}
 	}
+}
+
+// panicSite condenses a stack trace to the frames between the runtime's panic entry and the
+// goroutine wrapper: function names only, innermost first.
+func panicSite(stack string) string {
+	lines := strings.Split(stack, "\n")
+	var fns []string
+	after := false
+	for _, l := range lines {
+		if strings.HasPrefix(l, "\t") || strings.HasPrefix(l, "goroutine ") || l == "" {
+			continue
+		}
+		if i := strings.LastIndexByte(l, '('); i > 0 {
+			l = l[:i]
+		}
+		if strings.HasPrefix(l, "panic") {
+			after = true
+			fns = fns[:0]
+			continue
+		}
+		if !after || strings.HasPrefix(l, "runtime.") {
+			continue
+		}
+		if strings.Contains(l, "c13.runConcurrently") {
+			break
+		}
+		fns = append(fns, l)
+		if len(fns) == 6 {
+			break
+		}
+	}
+	return strings.Join(fns, " < ")
 }
 
 func withProcs(procs int, f func()) {
